@@ -4,6 +4,7 @@ import (
 	"fmt"
 	"go/constant"
 	"go/token"
+	"go/types"
 	"strings"
 
 	"golang.org/x/tools/go/ssa"
@@ -490,3 +491,112 @@ func ruleRootCacheSoundness(p *Program, r *Report) {
 }
 
 func init() { register("C16", Rule{"R16e", ruleRootCacheSoundness}) }
+
+// R16f: nothing rewrites the import path after the confinement check.  compilePackage cleans the path text and
+// rejects one that leaves the module (R16a) before it calls importLocalFile; from there to the read the path may
+// only be trimmed, prefixed/joined, cleaned or have text removed.  A step that can put new separators or `..`
+// segments into it (a replacement with non-empty text, separator conversion, unescaping, formatting) re-opens what
+// the check closed: `./sub\..\..\secret` is one harmless segment for the check and three after `\` became `/`.
+func ruleNoRewriteAfterCheck(p *Program, r *Report) {
+	r.Begin("R16f", "no rewriting after the confinement check: between importLocalFile's path parameter and the file read / recorder, the path flows only through operations that cannot introduce separators or `..` segments (trimming, removal, prefixing, Join, Clean, Ext/Dir/Base); any other transformation of the path text (replacement with non-empty text, ToSlash/FromSlash, unescaping, Sprintf …) is a violation", 2)
+	defer r.End()
+	ilf := p.Func("syntax", "importLocalFile")
+	fv := p.Func("syntax", "fileValue")
+	if ilf == nil || fv == nil {
+		r.Undecided("anchor", "syntax.importLocalFile / fileValue not found", 0)
+		return
+	}
+	var pathParam *ssa.Parameter
+	for _, q := range ilf.Params {
+		if b, ok := q.Type().Underlying().(*types.Basic); ok && b.Kind() == types.String {
+			pathParam = q // the first string parameter is the import path
+			break
+		}
+	}
+	if pathParam == nil {
+		r.Undecided("param", "importLocalFile has no string parameter", ilf.Pos())
+		return
+	}
+	harmless := func(g *ssa.Function, c *ssa.Call) bool {
+		if g == nil || g.Pkg == nil {
+			return false
+		}
+		pp, nm := g.Pkg.Pkg.Path(), g.Name()
+		switch pp {
+		case "strings":
+			switch {
+			case strings.HasPrefix(nm, "Trim"), strings.HasPrefix(nm, "Has"), strings.HasPrefix(nm, "Contains"), strings.HasPrefix(nm, "Index"), nm == "Count", nm == "EqualFold", nm == "Split", nm == "Fields":
+				return true
+			case nm == "ReplaceAll" || nm == "Replace":
+				// removal only
+				if len(c.Call.Args) >= 3 {
+					if k, ok := c.Call.Args[2].(*ssa.Const); ok && k.Value != nil && k.Value.Kind() == constant.String && constant.StringVal(k.Value) == "" {
+						return true
+					}
+				}
+				return false
+			}
+			return false
+		case "path", "path/filepath":
+			switch nm {
+			case "Join", "Clean", "Ext", "Dir", "Base", "IsAbs", "Abs", "Rel", "VolumeName", "Split":
+				return true
+			}
+			return false
+		}
+		return InRepo(g) // module helpers are followed / judged by the other rules
+	}
+	n := 0
+	seenStep := map[*ssa.Call]bool{}
+	ordStep := map[string]int{}
+	check := func(fn *ssa.Function, sink *ssa.Call, arg ssa.Value) {
+		DependsOn(arg, func(x ssa.Value) bool {
+			c, ok := x.(*ssa.Call)
+			if !ok || seenStep[c] {
+				return false
+			}
+			// does this call transform the import path?
+			touches := false
+			for _, a := range c.Call.Args {
+				if DependsOn(a, func(y ssa.Value) bool { return y == ssa.Value(pathParam) }) {
+					touches = true
+				}
+			}
+			if !touches {
+				return false
+			}
+			n++
+			seenStep[c] = true
+			g := c.Call.StaticCallee()
+			name := "a dynamic call"
+			if g != nil {
+				name = g.String()
+			}
+			ordStep[name]++
+			key := fmt.Sprintf("step@%s#%s~%d", FnName(fn), name, ordStep[name])
+			r.Check(harmless(g, c), key, "cannot introduce separators or `..` segments", fmt.Sprintf("%s rewrites the import path with %s after compilePackage has checked it against leaving the module: text that was one harmless segment for the check (backslashes, escapes) can become `..` segments before the file is read", FnName(fn), name), c.Pos())
+			return false
+		})
+	}
+	r.Fn(FnName(ilf))
+	ForEachInstr(ilf, func(ins ssa.Instruction) {
+		c, ok := ins.(*ssa.Call)
+		if !ok {
+			return
+		}
+		g := c.Call.StaticCallee()
+		if g == nil || !InRepo(g) {
+			return
+		}
+		for _, a := range c.Call.Args {
+			if b, isB := a.Type().Underlying().(*types.Basic); isB && b.Kind() == types.String && DependsOn(a, func(y ssa.Value) bool { return y == ssa.Value(pathParam) }) {
+				check(ilf, c, a)
+			}
+		}
+	})
+	if n == 0 {
+		r.Undecided("steps", "no operation on the import path found in importLocalFile (Trim and the root prefixing were confirmed by hand)", ilf.Pos())
+	}
+}
+
+func init() { register("C16", Rule{"R16f", ruleNoRewriteAfterCheck}) }
